@@ -153,7 +153,7 @@ def expand(ob, tier):
 
 # ---------------------------------------------------------------- wrapper generation
 
-def _gen_wrapper(prop, job):
+def _gen_wrapper(prop, job, native=False):
     ob = job.ob
     params = sorted(job.sym)
     sig = ', '.join('%s: %s' % (p, job.sym[p].typ) for p in params)
@@ -182,6 +182,17 @@ def _gen_wrapper(prop, job):
         conc.pop(p, None)
     call_kw += ['%s=%r' % kv for kv in sorted(conc.items())]
     call = '_h(%s)' % ', '.join(call_kw)
+    prep = ''
+    if native:
+        # native-path variant: every parameter is concretised by solver-driven forking (one path per value) and the
+        # harness then runs on the plain interpreter - for code that uses builtins CrossHair's models do not support
+        for p_ in params:
+            sp = job.sym[p_]
+            if isinstance(sp, R):
+                prep += '    %s = _rt.conc(%s, %d, %d)\n' % (p_, p_, sp.lo, sp.hi)
+            else:
+                prep += '    %s = _rt.cb(%s)\n' % (p_, p_)
+        call = '_rt.run_native(_h, dict(%s))' % ', '.join(call_kw)
     doc = ''.join('    pre: %s\n' % p for p in pres)
     if ob.raises:
         doc += '    raises: %s\n' % ', '.join(ob.raises)
@@ -195,7 +206,7 @@ def main(%(sig)s) -> bool:
     """
 %(doc)s    post: _
     """
-    _rt.started()
+%(prep)s    _rt.started()
     r = %(call)s
     _rt.completed()
     return r
@@ -205,12 +216,12 @@ def twin(%(sig)s) -> bool:
     """
 %(doc)s    post: _
     """
-    %(call)s
+%(prep)s    %(call)s
     return False
-''' % dict(root=ROOT, mod=ob.fn.__module__, fn=ob.fn.__name__, sig=sig, doc=doc, call=call)
+''' % dict(root=ROOT, mod=ob.fn.__module__, fn=ob.fn.__name__, sig=sig, doc=doc, call=call, prep=prep)
     d = os.path.join(GEN, prop)
     os.makedirs(d, exist_ok=True)
-    path = os.path.join(d, job.slug + '.py')
+    path = os.path.join(d, job.slug + ('_native' if native else '') + '.py')
     with open(path, 'w') as f:
         f.write(src)
     lines = src.split('\n')
@@ -277,8 +288,8 @@ def _parse_call(msg, params):
         return None
 
 
-def run_crosshair(prop, job):
-    path, main_line, twin_line = _gen_wrapper(prop, job)
+def run_crosshair(prop, job, native=False):
+    path, main_line, twin_line = _gen_wrapper(prop, job, native)
     stats = path[:-3] + '.stats'
     if os.path.exists(stats):
         os.unlink(stats)
@@ -364,7 +375,27 @@ def run_crosshair(prop, job):
             job.reason = 'counterexample not parseable: ' + msg[:300]
         else:
             _replay_and_classify(prop, job, kw, msg)
+            if job.status == 'inconclusive' and not native and _native_domain(job) is not None:
+                # CrossHair's model of some builtin disagrees with the interpreter: decide the same bounded domain on
+                # solver-enumerated paths that run natively
+                job.extra['first_attempt'] = job.reason[:300]
+                job.cex = None
+                run_crosshair(prop, job, native=True)
+                job.extra['native_paths'] = True
     return job
+
+
+def _native_domain(job, cap=6000):
+    """size of the parameter domain if every symbolic parameter is a bounded int or a bool and the product is small"""
+    n = 1
+    for sp in job.sym.values():
+        if isinstance(sp, R):
+            n *= sp.hi - sp.lo + 1
+        elif isinstance(sp, Bool):
+            n *= 2
+        else:
+            return None
+    return n if n <= cap else None
 
 
 # ---------------------------------------------------------------- replay
